@@ -169,7 +169,17 @@ func (pn *File) ToJSON(encoder *jbtf.Encoder) ([]byte, error) {
 		}
 	}
 
-	return encoder.Marshal(schema)
+	if schema.CurrentValue == nil {
+		return encoder.Marshal(schema)
+	}
+
+	// jbtf reads a Bytes view from its offset to the end of the buffer it
+	// lives in, so the payload has to be the only thing in its buffer: give it
+	// a buffer of its own, and leave that buffer to it.
+	encoder.StartNewBuffer()
+	data, err := encoder.Marshal(schema)
+	encoder.StartNewBuffer()
+	return data, err
 }
 
 func (pn *File) FromJSON(decoder jbtf.Decoder, body []byte) (err error) {
